@@ -1063,8 +1063,24 @@ pub enum AppearanceStreamEntry {
 }
 impl Object for AppearanceStreamEntry {
     fn from_primitive(p: Primitive, resolve: &impl Resolve) -> Result<Self> {
+        // an appearance is a stream or a dictionary of states; allow a little more nesting than that
+        Self::from_primitive_depth(p, resolve, 4)
+    }
+}
+impl AppearanceStreamEntry {
+    fn from_primitive_depth(p: Primitive, resolve: &impl Resolve, depth: usize) -> Result<Self> {
         match p.resolve(resolve)? {
-            p @ Primitive::Dictionary(_) => Object::from_primitive(p, resolve).map(AppearanceStreamEntry::Dict),
+            Primitive::Dictionary(dict) => {
+                // (references are followed without the resolver's recursion guard, so bound the depth here)
+                if depth == 0 {
+                    bail!("appearance dictionary nested too deeply");
+                }
+                let mut states = HashMap::new();
+                for (key, val) in dict.iter() {
+                    states.insert(key.clone(), Self::from_primitive_depth(val.clone(), resolve, depth - 1)?);
+                }
+                Ok(AppearanceStreamEntry::Dict(states))
+            }
             p @ Primitive::Stream(_) => Object::from_primitive(p, resolve).map(AppearanceStreamEntry::Single),
             p => Err(PdfError::UnexpectedPrimitive {expected: "Dict or Stream", found: p.get_debug_name()})
         }
